@@ -1,4 +1,4 @@
-"""C05 -- moving definitions and modules keeps importers working (structural clauses R05.1-R05.13)."""
+"""C05 -- moving definitions and modules keeps importers working (structural clauses R05.1-R05.14)."""
 from __future__ import annotations
 
 import ast
@@ -26,7 +26,7 @@ EXPLANATION = (
     "an existing import' on dotted names with the trailing dot.  R05.10: a from-import's module_name is compared with an "
     "absolute module name only under a test of its level.  R05.11: an effectful per-statement step is never short-circuited by "
     "the flag it accumulates.  R05.12: module-ness of a renamed name is decided on the object, not on the kind of the name.  R05.13: a from-import name obtained "
-    "by splitting a dotted module name is its last component."
+    "by splitting a dotted module name is its last component.  R05.14 (=R07.10): relative module lookup climbs (level - 1) packages on every path."
 )
 ASSUMPTIONS = [
     "helper summaries: self.m() resolves through the class MRO; x.y.m() is attributed to every method m of the analysed modules",
@@ -503,6 +503,9 @@ def _shared(ctx, res) -> None:
     from .common import prefix_boundary_rule
 
     _from_import_identity_rule(ctx, res, "R05.8")
+    from .common import relative_level_rule
+
+    relative_level_rule(ctx, res, "R05.14")
     # R05.9: "an existing import already provides the new one" is a test on dotted names
     prefix_boundary_rule(ctx, res, "R05.9", ["rope.refactor.importutils.actions.AddingVisitor.visitNormalImport"])
     # R05.10: a from-import's module_name is relative text when level > 0; comparing it with an ABSOLUTE dotted name is
